@@ -1145,7 +1145,13 @@ func (e *Exec) summaryCall(f *frame, in ssa.Instruction, fn *ssa.Function, key s
 func (e *Exec) applyModSet(ms *modSet, h *Heap) {
 	{
 		var names []string
-		for _, d := range ms.descs {
+		var dkeys []string
+		for k := range ms.descs {
+			dkeys = append(dkeys, k)
+		}
+		sort.Strings(dkeys) // deterministic order: declarations are numbered as they are first used
+		for _, dk := range dkeys {
+			d := ms.descs[dk]
 			switch d.kind {
 			case 'F':
 				c, _ := e.fieldComp(d.t, d.field)
